@@ -63,6 +63,9 @@ def program_strategy(draw, max_ops=8):
                                "clear": st.booleans()}),
         st.fixed_dictionaries({"op": st.just("mcopy"), "mask": st.lists(st.booleans(), min_size=1, max_size=12)}),
         st.just({"op": "reopen"}),
+        # more vertices are appended through the `vertices` setter and the file is re-opened (the live arrays are not
+        # judged in between: the statement lists no growth operation, a reader must still find one entry per vertex)
+        st.fixed_dictionaries({"op": st.just("grow"), "k": st.integers(1, 3)}),
     )
     seed_ops = [draw(st.fixed_dictionaries({"op": st.just("add"), "kind": st.sampled_from(KINDS),
                                             "assoc": st.sampled_from(["VERTEX", "CELL"]), "vals": vals,
@@ -88,6 +91,7 @@ class Model:
     def copy(self):
         m = Model([], [])
         m.verts, m.cells = list(self.verts), list(self.cells)
+        m.next_v = self.next_v
         m.data = {k: {"kind": d["kind"], "assoc": d["assoc"], "vals": dict(d["vals"])} for k, d in self.data.items()}
         return m
 
@@ -354,6 +358,25 @@ class C07(Check):
                         return res
                     ws.remove_entity(new)
                     del new
+                elif kind == "grow":
+                    if any(d["kind"] == "text" for d in model.data.values()):
+                        res.label("grow:skipped-text-data")  # text arrays have no length rule (recorded finding)
+                        continue
+                    old = np.asarray(obj.vertices, dtype=float)
+                    extra = old[-1] + np.arange(1, op["k"] + 1)[:, None] * np.asarray([1.5, -0.5, 0.25])
+                    try:
+                        obj.vertices = np.vstack([old, extra])
+                    except Exception as exc:
+                        res.label(f"grow:refused:{type(exc).__name__}")
+                        continue
+                    for row in extra.tolist():
+                        model.verts.append((model.next_v, tuple(row)))
+                        model.next_v += 1
+                    res.label("grow")
+                    ws.close()
+                    del obj
+                    ws = Workspace(path)
+                    obj = ws.get_entity(uid)[0]
                 elif kind == "reopen":
                     ws.close()
                     del obj
